@@ -7,41 +7,66 @@ import Spec.Pipeline
 namespace MongoModel.Pipe.Proofs
 open MongoModel MongoModel.Pipe MongoModel.Spec.Pipe
 
-/-- `accValues` = the expression on every document of the group in order, missing ones skipped -/
-theorem accValues_ok (key : Val) : ∀ (g : List Val) (vs : List Val), accValues key g = .ok vs →
-    ∃ rs : List (Option Val), List.Forall₂ (fun d r => Expr.evalExprStrict d key = .ok r) g rs ∧
-      vs = specPush rs
-  | [], vs, h => by simp [accValues] at h; subst h; exact ⟨[], List.Forall₂.nil, rfl⟩
+/-- what an accumulator sees of the values `rs` its expression takes (`none` = missing):
+    `$first` / `$last` read a missing value as null, the others skip it -/
+def seenValues (firstLast : Bool) (rs : List (Option Val)) : List Val :=
+  if firstLast then rs.map (fun r => r.getD .null) else specPush rs
+
+/-- `accValues` = the expression (evaluated like a computed field) on every document of the
+    group in order; missing values skipped, or null for `$first` / `$last` -/
+theorem accValues_ok (fl : Bool) (key : Val) : ∀ (g : List Val) (vs : List Val),
+    accValues fl key g = .ok vs →
+    ∃ rs : List (Option Val), List.Forall₂ (fun d r => Expr.evalExpr d key = .ok r) g rs ∧
+      vs = seenValues fl rs
+  | [], vs, h => by
+    simp [accValues] at h; subst h
+    exact ⟨[], List.Forall₂.nil, by cases fl <;> rfl⟩
   | d :: ds, vs, h => by
     simp only [accValues] at h
-    cases hd : Expr.evalExprStrict d key with
+    cases hd : Expr.evalExpr d key with
     | error e => simp [hd] at h
     | ok r =>
-      cases hr : accValues key ds with
+      cases hr : accValues fl key ds with
       | error e => simp [hd, hr] at h
       | ok ws =>
         simp only [hd, hr, Except.ok.injEq] at h
-        obtain ⟨rs, h1, h2⟩ := accValues_ok key ds ws hr
+        obtain ⟨rs, h1, h2⟩ := accValues_ok fl key ds ws hr
         refine ⟨r :: rs, List.Forall₂.cons hd h1, ?_⟩
         subst h; subst h2
-        cases r <;> simp [specPush]
+        cases r <;> cases fl <;> simp [seenValues, specPush]
 
 theorem acc_push (values : List Val) : accApply "$push" values = .ok (.arr values) := by
   simp [accApply]
 
 theorem acc_first (values : List Val) :
     accApply "$first" values = .ok (specFirst (values.map some)) := by
-  cases values <;> simp [accApply, Expr.groupingOnList, specFirst]
+  cases values <;> simp [accApply, specFirst]
 
 theorem acc_last (values : List Val) :
     accApply "$last" values = .ok (specLast (values.map some)) := by
-  simp only [accApply, Expr.groupingOnList, specLast]
+  simp only [accApply, specLast]
   simp only [show ("$last" = "$sum") = False by decide, show ("$last" = "$avg") = False by decide,
-    show ("$last" = "$first") = False by decide, show ("$last" = "$min") = False by decide,
-    show ("$last" = "$max") = False by decide, if_false, if_true, Bool.or_false,
-    decide_false, decide_true, Bool.or_true, Bool.false_eq_true]
+    show ("$last" = "$first") = False by decide, if_false]
   rw [List.getLast?_map]
   cases values.getLast? <;> rfl
+
+/-- `$first` / `$last` over what they see of `rs`: the value on the first / last document, null
+    when it is missing there -/
+theorem acc_first_seen (rs : List (Option Val)) :
+    accApply "$first" (seenValues true rs) = .ok (specFirst rs) := by
+  cases rs with
+  | nil => simp [accApply, seenValues, specFirst]
+  | cons r t => cases r <;> simp [accApply, seenValues, specFirst]
+
+theorem acc_last_seen (rs : List (Option Val)) :
+    accApply "$last" (seenValues true rs) = .ok (specLast rs) := by
+  simp only [accApply, specLast, seenValues, if_true]
+  simp only [show ("$last" = "$sum") = False by decide, show ("$last" = "$avg") = False by decide,
+    show ("$last" = "$first") = False by decide, if_false]
+  rw [List.getLast?_map]
+  cases rs.getLast? with
+  | none => rfl
+  | some r => cases r <;> rfl
 
 theorem sumNums_ints : ∀ (is : List Int) (a : Int),
     Expr.sumNums (is.map Expr.PyNum.i) (.i a) = .ok (.i (is.foldl (· + ·) a))
@@ -51,10 +76,10 @@ theorem sumNums_ints : ∀ (is : List Int) (a : Int),
       List.foldl_cons]
     exact sumNums_ints r (a + i)
 
-theorem numsOf_ints (is : List Int) : Expr.numsOf (is.map Val.int) = is.map Expr.PyNum.i := by
+theorem accNums_ints (is : List Int) : accNums (is.map Val.int) = is.map Expr.PyNum.i := by
   induction is with
   | nil => rfl
-  | cons i r ih => simp [Expr.numsOf, Expr.toPyNum, ih]
+  | cons i r ih => simp [accNums, ih]
 
 /-- `$sum` over integer values is their sum -/
 theorem acc_sum_ints (is : List Int) :
@@ -65,7 +90,6 @@ theorem acc_sum_ints (is : List Int) :
     induction is with
     | nil => rfl
     | cons i r ih => simp [ih]
-  simp only [accApply, Expr.groupingOnList, if_true, Bool.true_or, decide_true, numsOf_ints,
-    sumNums_ints, bind, Except.bind, Expr.PyNum.toVal, hs]
+  simp only [accApply, accSum, if_true, accNums_ints, sumNums_ints, Expr.PyNum.toVal, hs]
 
 end MongoModel.Pipe.Proofs
